@@ -18,6 +18,8 @@ import (
 	"github.com/keep-network/keep-core/pkg/generator"
 	"github.com/keep-network/keep-core/pkg/internal/verifadapt"
 	"github.com/keep-network/keep-core/pkg/protocol/group"
+	"github.com/keep-network/keep-core/pkg/tecdsa/dkg/gen/pb"
+	"google.golang.org/protobuf/proto"
 
 	"verifsim"
 )
@@ -98,6 +100,33 @@ func c39Classify(p *PreParams) verifadapt.PoolGot {
 	return g
 }
 
+// c39Damage zeroes every byte of one number of a stored record (the record
+// stays a well-formed protobuf message with all fields present).
+func c39Damage(f verifadapt.DiskFile, choice int) ([]byte, string, bool) {
+	rec := &pb.PreParams{}
+	if err := proto.Unmarshal(f.Data, rec); err != nil || rec.Data == nil || rec.Data.PaillierSK == nil || rec.Data.PaillierSK.PublicKey == nil {
+		return nil, "", false
+	}
+	d := rec.Data
+	fields := []struct {
+		name string
+		b    *[]byte
+	}{
+		{"PaillierSK.N", &d.PaillierSK.PublicKey.N}, {"PaillierSK.LambdaN", &d.PaillierSK.LambdaN}, {"PaillierSK.PhiN", &d.PaillierSK.PhiN},
+		{"NTilde", &d.NTilde}, {"H1i", &d.H1I}, {"H2i", &d.H2I}, {"Alpha", &d.Alpha}, {"Beta", &d.Beta}, {"P", &d.P}, {"Q", &d.Q},
+	}
+	pick := fields[choice%len(fields)]
+	if len(*pick.b) == 0 {
+		return nil, "", false
+	}
+	*pick.b = make([]byte, len(*pick.b))
+	out, err := proto.Marshal(rec)
+	if err != nil {
+		return nil, "", false
+	}
+	return out, pick.name, true
+}
+
 func init() {
 	verifScenarios["C39"] = verifsim.Scenario{Bubble: true, Fn: c39Run}
 }
@@ -133,6 +162,7 @@ func c39Run(t *testing.T, r *verifsim.Run) {
 				Unlock: latch.Unlock,
 			}
 		},
+		Damage: c39Damage,
 		FileTag: func(f verifadapt.DiskFile) (uint64, bool) {
 			// ground truth by content: a complete file decodes to one of the
 			// generated parameters
